@@ -163,16 +163,27 @@ GATES = {
     'fsk_ook_rx_calibrate': 'fskook', 'fsk_ook_get_raw_temperature': 'fskook', 'fsk_ook_set_temp_monitor': 'fskook',
 }
 
+PACKET_OPS = ('create', 'irq', 'fsk_ook_tx_set_for_transmission', 'fsk_ook_tx_set_for_transmission_with_address', 'fsk_ook_tx_start_beacon')
+
 def mon_faults(run, script, il, iab, ml):
-    """C11: a failed transfer is reported by the call in progress, no further write follows"""
+    """C11: a failed transfer is reported by the call in progress, no further write follows, and
+    (C11_failed_call_keeps_handle) a failed call that is not a packet operation leaves the handle
+    as it was"""
+    prev_h = None
     for l in il:
         if not is_op(l):
             continue
         f = fields(l)
+        before, prev_h = prev_h, f.get('h')
         ents = spi_entries(f.get('spi'))
         idx = next((i for i, e in enumerate(ents) if e['fault'] is not None), None)
         if idx is None:
             continue
+        if f['op'] not in PACKET_OPS and before is not None and f.get('h') is not None:
+            run.cov['monitor_checks'] += 1
+            if f.get('h') != before:
+                run.violation('%s failed at transfer %d but changed the handle: %s -> %s' % (f['op'], idx, before, f.get('h')), script, {'line': l})
+                continue
         run.cov['monitor_checks'] += 1
         rc = f.get('rc', '').split(',')[0]
         code = '%x' % ents[idx]['fault']
